@@ -383,3 +383,14 @@ for _p in ("C14", "C12"):
 PROPS["C11"]["modules"] = PROPS["C11"]["modules"] + ["TxCheck"]
 PROPS["C11"]["runners"] = PROPS["C11"]["runners"] + [{"name": "C17TX"}]
 PROPS["C11"]["rule"] += (" Runner C17TX (M-pure, hook VerifStartTx) as for C17: the identifier given to a new Subscribe/Unsubscribe is held by no pending request, for tables and counters that histories reach only after 8192 requests.")
+
+# C14: Close landing inside the Save of a persisted publish (gated scenario, real time)
+PROPS["C14"]["modules"] = PROPS["C14"]["modules"] + ["SyncCheck"]
+PROPS["C14"]["runners"] = PROPS["C14"]["runners"] + [{"name": "SYNC14", "synctest": True}]
+PROPS["C14"]["rule"] += (" Runner SYNC14 (gated, real time): Close while PublishAtLeastOnce resp. PublishExactlyOnce is inside Persistence.Save (after its context check, before its write attempt); judged by sync_ok_c14: when the call returns an error no publish record is left in the Persistence; the trace is accepted by the L3 monitor.")
+
+# C01/C03/C10: a hard (not close-type) write error of a persisted publish while the reader is parked in a silent connection
+for _p in ("C01", "C03"):
+    PROPS[_p]["modules"] = PROPS[_p]["modules"] + ["SyncCheck"]
+    PROPS[_p]["runners"] = PROPS[_p]["runners"] + [{"name": "SYNC01", "synctest": True}]
+    PROPS[_p]["rule"] += (" Runner SYNC01 (gated, real time): the client is online with a silent broker (the read routine parked in conn.Read without a deadline) when a persisted publish meets a write error that is not a close-type error; judged by sync_ok_c01: ReadSlices comes back, the redial succeeds, and the PUBLISH goes out on the second connection; the trace is accepted by the L3 monitor.")
